@@ -37,14 +37,16 @@ func TestSim(t *testing.T) { common.Main(t, common.Harness{Property: "C04", Run:
 const maxCall = 70
 
 func craft(run uint64) []uint32 {
-	// stratum: 0 TCP, 1 QUIC only, 2 QUIC and TCP addresses both known (raw values for Weighted(3,2,1))
-	switch run % 3 {
+	// stratum: 0 TCP, 1 QUIC only, 2 QUIC and TCP addresses both known, 3 WebTransport (raw values for Weighted(3,2,1,1))
+	switch run % 4 {
 	case 1:
-		return append([]uint32{3}, craftQUIC(run/3)...)
+		return append([]uint32{3}, craftQUIC(run/4)...)
 	case 2:
-		return append([]uint32{5}, craftQUIC(run/3)...)
+		return append([]uint32{5}, craftQUIC(run/4)...)
+	case 3:
+		return append([]uint32{6}, craftQUIC(run/4)...)
 	}
-	return append([]uint32{0}, craftTCP(run/3)...)
+	return append([]uint32{0}, craftTCP(run/4)...)
 }
 
 // craftQUIC: plan kind (raw for Weighted(1,10,3,4,2,3)), side, plan draws; the background UDP faults and the payload
@@ -172,7 +174,7 @@ type plan struct {
 	// QUIC strata: kind 1 is a blackout of UDP datagrams — direction dir (0 A->B, 1 B->A, 2 both) from the k-th datagram
 	// of the attempt in that direction on, for span datagrams (0 = for the rest of the run); kinds 4 and 5 count the
 	// datagrams sent by the chosen side
-	quic int // 0 TCP, 1 QUIC only, 2 QUIC and TCP addresses known
+	quic int // 0 TCP, 1 QUIC only, 2 QUIC and TCP addresses known, 3 WebTransport only
 	dir  int
 	span int
 }
@@ -204,7 +206,7 @@ func (p plan) String() string {
 
 func class(p plan) string {
 	if p.quic != 0 {
-		return [...]string{"", "quic/", "quic+tcp/"}[p.quic] + class0(p)
+		return [...]string{"", "quic/", "quic+tcp/", "webtransport/"}[p.quic] + class0(p)
 	}
 	return class0(p)
 }
@@ -290,7 +292,7 @@ func run(t *testing.T, tape *simrt.Tape) *common.Outcome {
 	g := simrt.Gen{S: tape.G}
 	o := &common.Outcome{}
 
-	quic := g.Weighted(3, 2, 1)
+	quic := g.Weighted(3, 2, 1, 1)
 	if quic != 0 {
 		return runQUIC(t, tape, g, o, quic)
 	}
